@@ -69,12 +69,13 @@ PROPS = {
                        'only spaces after the last slice — so nothing but such spaces and line endings is lost, and nothing is duplicated, reordered or invented (U11: wrap, '
                        'wrap_single_line with its shortcut, wrap_single_line_slow_path; every slice is taken on char boundaries). This rests on the contracts of the word pipeline, '
                        'each proved in its own unit and restated in U11: the words found tile the line with spaces-only whitespace and no penalty (U13, U20), splitting and '
-                       'force-breaking keep the tiling and add at most a hyphen penalty (U14, U15, U6), the line breakers return an ordered partition (U1, U2, U17). The shortcut '
-                       'line is borrowed (Cow::Borrowed); fill == the lines joined (U12).',
-        'bounded_part': 'BEC (bounded, exhaustive within scope): pointer identity of borrowed lines with the caller\'s buffer, "a slice never ends in a space except after a forced '
+                       'force-breaking keep the tiling and add at most a hyphen penalty (U14, U15, U6), the line breakers return an ordered partition (U1, U2, U17). Every line '
+                       'is Cow::Borrowed exactly when it carries no indent and no inserted hyphen, otherwise Owned (U11: the Cow variant of every line is the function wrap_fn_b of '
+                       'the paragraphs; the shortcut line is borrowed); fill == the lines joined (U12).',
+        'bounded_part': 'BEC (bounded, exhaustive within scope): pointer identity of borrowed lines with the caller\'s buffer (Verus proves the Borrowed variant, whose lifetime ties it to the text; the address itself is not expressible), "a slice never ends in a space except after a forced '
                         'break", and the whole statement again by execution on the real crate for every text/option combination of its scope.',
         'explanation': 'Mixed, mostly proved: the statement\'s first two sentences are a discharged postcondition of wrap itself (relative to the restated contracts of the word '
-                       'pipeline, DESIGN.md §2.8, and std\'s str::split / slicing, A4); the pointer-level clause and the last sentence are checked by bounded exhaustive enumeration.',
+                       'pipeline, DESIGN.md §2.8, and std\'s str::split / slicing, A4); the Borrowed-variant clause is proved, pointer identity and the last sentence are checked by bounded exhaustive enumeration.',
     },
     'C02': {
         'units': ['U11', 'U1', 'U6', 'U22'], 'level': 'other', 'trusted': ['A1', 'A4', 'A5', 'A9', 'A12', 'R15'],
